@@ -4,6 +4,8 @@ use crate::fyshuffle::FYshuffle;
 use rand::RngCore;
 use std::io::Write;
 
+const RAW_TOP: u64 = u64::MAX;
+const RAW_BOTTOM: u64 = u64::MAX - 1;
 const G: u64 = 12; // divisible by 1,2,3,4: every choice of every step is hit equally often
 
 struct ScriptRng { vals: Vec<u64>, pos: usize }
@@ -12,6 +14,9 @@ impl RngCore for ScriptRng {
     fn next_u64(&mut self) -> u64 {
         let t = self.vals[self.pos % self.vals.len()];
         self.pos += 1;
+        // the two extreme generator words, passed through unchanged (top / bottom of the unit interval)
+        if t == RAW_TOP { return u64::MAX; }
+        if t == RAW_BOTTOM { return 0; }
         // Uniform<f64>::new(0,1) maps the top 52 bits to [0,1); put the cell midpoint (t+1/2)/G there
         ((((2 * t + 1) as u128) << 63) / (G as u128)) as u64
     }
@@ -79,6 +84,21 @@ fn verif_replay_c17() {
     let thorough = std::env::var("VERIF_TIER").map(|t| t == "thorough").unwrap_or(false);
     let mm = if thorough { 5 } else { 4 };
     let mut cases = 0u64;
+    // the extreme generator words at every step of a block (a draw at the very top of the unit interval must stay inside lastidx..m)
+    for m in 1..=(if thorough { 9 } else { 6 }) {
+        for pos in 0..m {
+            for (ext, fill) in [(RAW_TOP, 0u64), (RAW_TOP, G - 1), (RAW_BOTTOM, G - 1), (RAW_BOTTOM, 5)] {
+                let mut script = vec![fill; m];
+                script[pos] = ext;
+                for hist in [0usize, m + 2] {
+                    cases += 1;
+                    let w = serde_json::json!({"kind": "block", "m": m, "history_draws": hist, "script": script});
+                    progress(&w);
+                    if let Some((o, e)) = run_case(m, hist, &script) { out(true, w, o, e, cases); return; }
+                }
+            }
+        }
+    }
     for m in 1..=mm {
         let total = G.pow(m as u32);
         for code in 0..total {
